@@ -500,9 +500,16 @@ def fix_reimported_names(source: str) -> str:
 
             referenced_name = asname if asname else name
 
+            if name == "*":
+                node_names.append(alias)
+                continue
+
             if trace_result := trace_origin(name, module_source, __all__=True):
                 *_, module_import_node = trace_result
-                if isinstance(module_import_node, ast.ImportFrom):
+                if isinstance(module_import_node, ast.ImportFrom) and module_import_node.level:
+                    # Relative to the module it is in, which is not where this module is
+                    node_names.append(alias)
+                elif isinstance(module_import_node, ast.ImportFrom):
                     # Remove this alias from node.names
                     # Add this alias to things that should be imported from module_import_node.module
                     if (
